@@ -16,6 +16,7 @@ EXPLANATION = (
     "are woken by every grant and close (S3/S3b); (R5) no unjustified Pending on the writer path (S2).")
 EXPLANATION_ADDED = '(R6) advertised window = local rwnd (=C03.R3/R4); (R7) credit-implies-push (=C03.R7); R1 requires the threshold to be a min that includes the local window.'
 EXPLANATION = EXPLANATION + " Added while testing against seeded changes: " + EXPLANATION_ADDED
+EXPLANATION = EXPLANATION + ' Round 10: R2 also requires the window setters to store their argument.'
 ASSUMPTIONS = ["tokio mpsc try_send never blocks", "fair scheduling of tasks (liveness itself is not decided)"]
 NOT_DECIDED = "liveness under fairness; isolation of a slow stream beyond the no-blocking rule"
 THOROUGH_CONFIGS = ["mux-nodefault", "mux-std-only", "mux-nohash"]
@@ -142,6 +143,7 @@ def check(facts, rep, tier, cfg):
         rep.ok("C04.R7", i["key"], i["where"], i["detail"], nontrivial=False)
     for v in sub.violations:
         rep.bad("C04.R7", v["key"].split("/", 1)[1], v["where"], v["msg"])
+    check_option_setters(facts, rep, crate, "C04.R2", ['rwnd', 'default_rwnd_threshold'])
 
 
 def _check_positive(facts, rep, b, bi, s, what):
